@@ -3,9 +3,10 @@
 
   Code modelled (src/exabgp):
     configuration/configuration.py   Configuration.reload / _reload / _clear / _rollback_reload /
-                                     _commit_reload (and the fact that `_cleanup` only runs on commit)
-    configuration/neighbor/__init__.py  ParseNeighbor.post → make_rib → _init_neighbor
-                                     (`add_to_rib_watchdog` of every configured route on the LIVE rib)
+                                     _abort_reload / _commit_reload
+    configuration/neighbor/__init__.py  ParseNeighbor.post (records the neighbor) and attach_ribs
+                                     (make_rib + `add_to_rib_watchdog` of every configured route on
+                                     the LIVE rib), called from _commit_reload
     rib/__init__.py                  RIB.enable: the RIB is shared by neighbor name through `RIB._cache`
                                      (families replaced, `delete_cached_family`, `clear()` if adj-rib-out off)
     reactor/loop.py                  Reactor.reload: remove / new peer / reestablish / reconfigure
@@ -21,14 +22,20 @@
 
   The world is: `configuration.processes`, `configuration.neighbors` (a dict, by name), the RIBs of
   `RIB._cache` by name together with the transmission state of the session consuming them (an
-  M-Rib `Sess`), the peers of `reactor._peers`, and `dirty` = the configuration parser was left
-  uncleaned by a failed reload (`_cleanup()` is only called from `_commit_reload`).
+  M-Rib `Sess`), the peers of `reactor._peers`.  (Before f9a9367 a failed reload left the parser
+  uncleaned and the world carried a `dirty` flag; `_abort_reload` cleans it on every path now.)
 
-  Stages of a reload, all of which touch state:
-    (a) `_clear`      processes := {}, neighbors := {}, previous saved
-    (b) parsing       neighbor by neighbor: `attach` (RIB.enable on the live RIB of that name) and
-                      insertion of its routes into that RIB; a fault can occur after any prefix
-    (c) commit or rollback (or neither: missing file and parser exceptions return without rollback)
+  Stages of a reload (as of /repo commits f9a9367 and 1a8ae65):
+    (0) the source is opened; a missing / empty / unreadable file returns False before anything
+        is touched
+    (a) `_clear`      processes := {}, neighbors := {}, both saved
+    (b) parsing       neighbor by neighbor: builds Neighbor objects only (`post()` records the
+                      neighbor in `ParseNeighbor._attach`); a fault can occur after any prefix
+    (c) rollback      on EVERY failure path (`_abort_reload` = `_rollback_reload` + `_cleanup`):
+                      neighbors and processes restored, parser cleaned
+        or commit     `attach_ribs()`: for every neighbor `attach` (RIB.enable on the live RIB of
+                      that name) and insertion of its routes into that RIB; then neighbors := new,
+                      `previous` links, `_cleanup()`
     (d) Reactor.reload's choice per peer; `replace_reload` immediately (session down) or at the top
         of the next `_main` iteration (session up); `replace_restart` at the next establishment
 
@@ -87,12 +94,11 @@ structure World where
   nbrs  : AList Nat Nbr       -- configuration.neighbors
   ribs  : AList Nat Sess      -- RIB._cache by neighbor name (+ the session transmitting it)
   peers : AList Nat PeerSt    -- reactor._peers
-  dirty : Bool                -- parser/scope state left behind by a failed reload
 deriving DecidableEq, Repr
 
-def World.init : World := { procs := [], nbrs := [], ribs := [], peers := [], dirty := false }
+def World.init : World := { procs := [], nbrs := [], ribs := [], peers := [] }
 
-/-! ### stage (b): parsing one neighbor -/
+/-! ### commit stage: `attach_ribs()` for one neighbor -/
 
 /-- `make_rib()` → `RIB.enable(name, …)`: a RIB of that name in `RIB._cache` is re-used. -/
 def attach (s : Option Sess) (n : Nbr) : Sess :=
@@ -113,38 +119,57 @@ def insertOp (cr : CRoute) : Op :=
 def insertOps (n : Nbr) : List Op :=
   (n.routes.filter (fun cr => n.fams.contains cr.r.fam)).map insertOp
 
-/-- What parsing neighbor `n` does to the RIB of its name. -/
+/-- What committing neighbor `n` does to the RIB of its name. -/
 def parseSess (s : Option Sess) (n : Nbr) : Sess := ((attach s n).run (insertOps n)).1
 
 def parseNbr (w : World) (n : Nbr) : World :=
   { w with ribs := AList.insert n.name (parseSess (AList.lookup n.name w.ribs) n) w.ribs }
 
-/-! ### stages (a)–(c): `Configuration.reload()` -/
+/-! ### stages (0)–(c): `Configuration.reload()` -/
 
 inductive Fault where
-  | firstLine             -- the very first statement of the file is refused: rolled back, nothing was
-                          --   parsed, no section was entered (the parser stays usable)
-  | syntax (k : Nat)      -- `parse_section` returns False after `k` neighbors were completed: rolled back
+  | firstLine             -- the very first statement of the file is refused
+  | syntax (k : Nat)      -- `parse_section` returns False after `k` neighbors were completed
   | exception (k : Nat)   -- a value parser raises something else than ValueError after `k` neighbors:
-                          --   caught by `reload()`, which does not roll back
-  | missingFile           -- `return False` straight after `_clear()`
+                          --   caught by `reload()`
+  | missingFile           -- the source cannot be read (vanished, empty): refused before `_clear()`
   -- (a `validate()` error after the commit is NOT a failure path: `_reload` ends with
   --  `check = self.validate(); if check: return check; return True`, i.e. True either way)
 deriving DecidableEq, Repr
 
 def toDict (ns : List Nbr) : AList Nat Nbr := ns.foldl (fun d n => AList.insert n.name n d) []
 
+/-- `attach_ribs()`: every neighbor of the accepted file, in file order. -/
 def parseAll (w : World) (ns : List Nbr) : World := ns.foldl parseNbr w
+
+/-- `_clear()`: what is saved is the first component. -/
+def clearStage (w : World) : (AList Nat Nbr × List Nat) × World :=
+  ((w.nbrs, w.procs), { w with procs := [], nbrs := [] })
+
+/-- Parsing `k` neighbor sections: Neighbor objects are built, the world is not touched
+    (`post()` only records them; RIBs are attached at the commit). -/
+def parseStage (w : World) (_parsed : List Nbr) : World := w
+
+/-- `_abort_reload()`: `_rollback_reload` (neighbors and processes as saved) + `_cleanup`. -/
+def abortStage (saved : AList Nat Nbr × List Nat) (w : World) : World :=
+  { w with nbrs := saved.1, procs := saved.2 }
 
 /-- `Configuration.reload()`: the new world and the verdict. -/
 def cfgReload (w : World) (c : Config) (f : Option Fault) : World × Bool :=
-  if w.dirty then (w, false)       -- the scope is still inside the section that failed: the first section is refused
-  else match f with
-  | some .missingFile => ({ w with procs := [], nbrs := [] }, false)
-  | some .firstLine => ({ w with procs := [] }, false)
-  | some (.exception k) => ({ parseAll w (c.nbrs.take k) with procs := [], nbrs := [], dirty := true }, false)
-  | some (.syntax k) => ({ parseAll w (c.nbrs.take k) with procs := c.procs, dirty := true }, false)
-  | none => ({ parseAll w c.nbrs with procs := c.procs, nbrs := toDict c.nbrs }, true)
+  match f with
+  | some .missingFile => (w, false)
+  | some .firstLine =>
+    let r := clearStage w
+    (abortStage r.1 (parseStage r.2 []), false)
+  | some (.syntax k) =>
+    let r := clearStage w
+    (abortStage r.1 (parseStage r.2 (c.nbrs.take k)), false)
+  | some (.exception k) =>
+    let r := clearStage w
+    (abortStage r.1 (parseStage r.2 (c.nbrs.take k)), false)
+  | none =>
+    let r := clearStage w
+    ({ parseAll (parseStage r.2 c.nbrs) c.nbrs with procs := c.procs, nbrs := toDict c.nbrs }, true)
 
 /-! ### stage (d): `Reactor.reload()` -/
 
